@@ -2,7 +2,7 @@
 from ..ir import AnalysisBroken, strip_targs, qmatch
 from ..graph import Graph
 from ..expr import access_path, path_str, held_locks, reaching_defs, norm_cond, origins, leaves, defs_in_node
-from .common import strip_casts, short, comparison, FLIP
+from .common import strip_casts, short, comparison, FLIP, callbacks_never_stop, loops_over, subtree_through_locals
 from . import c06, c08
 
 UNITS = ['sdk/src/metrics/state/observable_registry.cc', 'sdk/src/metrics/async_instruments.cc',
@@ -238,22 +238,52 @@ def rule_r1_identity(ck, prog, rule='C17.R1'):
     lams = [x for x in prog.funcs.values() if x.d.get('lambda') and x.d.get('parent') == f.key]
     if not lams or not fields:
         raise AnalysisBroken('ObservableRegistry::RemoveCallback: predicate / record fields not found')
-    lf = lams[0]
-    compared = set()
-    for n in lf.nodes:
-        c = comparison(lf, n['i'])
-        if c and c[0] == '==':
-            for side in (c[1], c[2]):
-                for j in lf.subtree(side):
-                    m = lf.nodes[j]
-                    if m['k'] == 'member' and m['name'] in fields:
-                        compared.add(m['name'])
+    # the predicate handed to the removal algorithm (an inline lambda, or a named closure)
+    from ..symb import returns_under_pins
+    lf = None
+    for n in f.nodes:
+        if n['k'] == 'call' and strip_targs(n.get('c', '')) in ('std::remove_if', 'std::find_if', 'std::partition', 'std::stable_partition') and len(n.get('args', [])) >= 3:
+            a = n['args'][2]
+            cand = [f.nodes[k] for k in subtree_through_locals(f, a) if f.nodes[k]['k'] == 'lambda' and f.nodes[k].get('fn') in prog.funcs]
+            if cand:
+                lf = prog.funcs[cand[0]['fn']]
+    if lf is None:
+        lf = lams[0]
+    # truth table: the comparisons of the record's fields are pinned per scenario (closures the predicate calls are inlined); the
+    # predicate must say "remove" exactly when every field AddCallback stored matches
+    g = Graph(prog, lf, inline=lambda caller, call, callee, depth: bool(callee.d.get('lambda')), sync_lambdas=False, max_depth=3)
+
+    def pins_for(differs):
+        pins = {}
+        seen_fields = set()
+        for c_ in g.ctxs:
+            ff = c_.f
+            for n in ff.nodes:
+                c = comparison(ff, n['i'])
+                if not c or c[0] not in ('==', '!='):
+                    continue
+                flds = {ff.nodes[k]['name'] for side in (c[1], c[2]) for k in ff.subtree(side) if ff.nodes[k]['k'] == 'member' and ff.nodes[k]['name'] in fields}
+                if len(flds) != 1:
+                    continue
+                fld = flds.pop()
+                seen_fields.add(fld)
+                equal = fld != differs
+                pins[(id(ff), n['i'])] = equal if c[0] == '==' else (not equal)
+        return pins, seen_fields
+    pins, compared = pins_for(None)
+    all_match = returns_under_pins(g, pins)
+    bad = []
+    if all_match != {True}:
+        bad.append('with every field equal the predicate returns %s' % sorted(all_match, key=str))
+    for fld in sorted(fields):
+        vals = returns_under_pins(g, pins_for(fld)[0])
+        if vals != {False}:
+            bad.append('a registration that differs only in %s is removed as well' % fld)
+    ok = not bad
     rets = [n for n in lf.nodes if n['k'] == 'return']
-    has_or = any(lf.nodes[j]['k'] == 'binop' and lf.nodes[j]['op'] == '||' for r in rets for j in lf.subtree(r['e']))
-    ok = compared == fields and not has_or
     ck.verdict(ok, rule, lf, 'remove-matches-whole-registration', rets[0] if rets else None,
-               'a registration is removed only when callback, state and instrument all match' if ok else
-               'RemoveCallback does not compare %s: removing one registration also removes the others that differ only there (same function registered with different state), they are never invoked again' % ', '.join(sorted(fields - compared) or ['all fields conjunctively']))
+               'a registration is removed only when callback, state and instrument all match (truth table over the field comparisons)' if ok else
+               'RemoveCallback: %s - removing one registration also removes others (same function registered with different state), they are never invoked again' % '; '.join(bad))
 
 
 def rule_r5(ck, prog, rule='C17.R5'):
@@ -333,12 +363,88 @@ def rule_r5(ck, prog, rule='C17.R5'):
                    'for a synchronous gauge with a delta-preferring reader the collector can return %s: the gauge storage takes the delta path, and an attribute set that was not re-recorded in the interval is omitted instead of reporting its last value' % sorted(vals, key=str))
 
 
+def rule_r6(ck, prog, rule='C17.R6'):
+    """collection reaches every meter, and a destroyed instrument loses every one of its callbacks"""
+    # (a) the per-meter callback of the collector never asks ForEachMeter to stop
+    hosts = [f for f in prog.funcs.values() if f.cls and f.cls.endswith('sdk::metrics::MetricCollector') and f.name == 'Produce']
+    n = callbacks_never_stop(ck, prog, rule, hosts, callee_suffixes=('MeterContext::ForEachMeter',))
+    if not n:
+        raise AnalysisBroken('MetricCollector::Produce: the per-meter callback handed to ForEachMeter was not found')
+    # (b) CleanupCallback erases all records of the instrument: erase(remove_if(begin, end, pred), end) or an erasing loop over the
+    # whole list - a single erase(find_if(...)) leaves the other callbacks of the instrument registered with a dangling pointer
+    f = prog.function('sdk::metrics::ObservableRegistry::CleanupCallback')
+    g = Graph(prog, f, inline=None, sync_lambdas=False)
+    rd = reaching_defs(g)
+    rec = prog.record('sdk::metrics::ObservableRegistry')
+    lists = {fd['name'] for fd in rec['fields'] if 'std::vector<' in fd['t'] and 'ObservableCallbackRecord' in fd['t']}
+    erases = [p for p in g.points if p.n is not None and p.n['k'] == 'call' and strip_targs(p.n.get('c', '')).rsplit('::', 1)[-1] == 'erase' and
+              p.n.get('obj') is not None and access_path(f, p.n['obj'])[-1:] and access_path(f, p.n['obj'])[-1] in lists]
+    loops = loops_over(f, lambda ap: len(ap) == 2 and ap[0] == 'this' and ap[1] in lists)
+    ok = bool(erases)
+    why = 'CleanupCallback never erases from the callback list'
+    for p in erases:
+        args = [a for a in p.n.get('args', []) if a is not None and a >= 0]
+        if len(args) >= 2:
+            def sources(idx, ctx, depth=0):
+                """origins, looking through converting constructions (iterator -> const_iterator)"""
+                out = []
+                for (sf, sn, sc) in origins(g, rd, f, idx, ctx):
+                    a1 = [a for a in sn.get('args', []) if a is not None and a >= 0] if sn['k'] == 'construct' else []
+                    if len(a1) == 1 and depth < 4:
+                        out += sources(a1[0], sc, depth + 1)
+                    else:
+                        out.append(sn)
+                return out
+            whole = any(sn['k'] == 'call' and strip_targs(sn.get('c', '')) in ('std::remove_if', 'std::remove', 'std::partition', 'std::stable_partition') for sn in sources(args[0], p.ctx))
+            last = (sources(args[1], p.ctx) or [strip_casts(f, args[1])])[0]
+            to_end = last['k'] == 'call' and strip_targs(last.get('c', '')).rsplit('::', 1)[-1] in ('end', 'cend')
+            if not (whole and to_end):
+                ok, why = False, 'the range handed to erase is not [remove_if(begin, end, ...), end)'
+        else:
+            in_loop = any(p.n['i'] in set(f.subtree(lp['body'])) for lp in loops)
+            exits = [m for lp in loops for i in f.subtree(lp['body']) for m in [f.nodes[i]] if m['k'] in ('break', 'return', 'GotoStmt')]
+            if not in_loop or exits:
+                ok, why = False, 'a single element is erased outside a loop over the whole list (or the loop stops at the first match): the other callbacks of the destroyed instrument stay registered with a dangling instrument pointer'
+    ck.verdict(ok, rule, f, 'cleanup-removes-every-record', erases[0].n if erases else None, 'every record of the destroyed instrument is erased' if ok else why)
+
+
+def rule_r7(ck, prog, rule='C17.R7'):
+    """the difference of two cumulative sums is stored as it is: Diff writes next - current straight into the result's value (building
+    the result through Aggregate() runs the monotonic guard, which silently drops a negative difference)"""
+    cnt = 0
+    for cls in ('sdk::metrics::LongSumAggregation', 'sdk::metrics::DoubleSumAggregation'):
+        rec = prog.record(cls)
+        f = [x for x in prog.funcs.values() if x.cls == rec['qn'] and x.name == 'Diff'][0]
+        cnt += 1
+        nxt = f.params[0]['id']
+        writes = []
+        for n in f.nodes:
+            lhs = n['lhs'] if (n['k'] == 'binop' and n['op'] == '=') else (n.get('obj') if (n['k'] == 'call' and n.get('op') == '=') else None)
+            if lhs is not None and access_path(f, lhs)[-2:] == ('point_data_', 'value_'):
+                writes.append(n)
+        aggs = [n for n in f.nodes if n['k'] == 'call' and strip_targs(n.get('c', '')).rsplit('::', 1)[-1] == 'Aggregate']
+        ok = len(writes) == 1 and not aggs
+        why = 'the result is built through Aggregate(), whose monotonic guard discards a negative difference' if aggs else 'no direct store of the difference into the result\'s value'
+        if ok:
+            w = writes[0]
+            rhs = w['rhs'] if w['k'] == 'binop' else w['args'][0]
+            subs = [f.nodes[i] for i in subtree_through_locals(f, rhs) if f.nodes[i]['k'] == 'binop' and f.nodes[i]['op'] == '-']
+            ok = len(subs) == 1 and any(f.nodes[i]['k'] == 'ref' and f.nodes[i].get('id') == nxt for i in f.subtree(subs[0]['lhs'])) and \
+                not any(f.nodes[i]['k'] == 'ref' and f.nodes[i].get('id') == nxt for i in f.subtree(subs[0]['rhs']))
+            why = 'the stored value is not next - current'
+        ck.verdict(ok, rule, f, 'diff-stores-next-minus-current', writes[0] if writes else (aggs[0] if aggs else None),
+                   'value = next - current, stored directly' if ok else '%s::Diff: %s' % (cls.rsplit('::', 1)[-1], why))
+    return cnt
+
+
 def run(ck, prog):
     ck.doc('C17.R1', 'registry: list under its mutex; callbacks invoked under the lock from the registered list, once per record; destructor cleans up; removal matches the whole registration', 9)
     ck.doc('C17.R2', 'Meter::Collect: Observe precedes every storage Collect', 1)
     ck.doc('C17.R3', 'LastValue Merge/Diff tie-break orientation; Aggregate sets valid/value/timestamp under the lock', 6)
     ck.doc('C17.R4', 'AsyncMetricStorage::Record updates cumulative and delta tables; delta = previous->Diff(current)', 2)
     ck.doc('C17.R5', 'decision tables: explicit Sum view monotonicity = default selection; sync gauge never gets delta temporality', 5)
+    ck.doc('C17.R6', 'the collector\'s per-meter callback never stops the iteration; CleanupCallback erases every record of the destroyed instrument', 2)
+    ck.doc('C17.R7', 'Sum Diff stores next - current directly (not through the monotonic guard of Aggregate)', 2)
     ck.doc('C08.R7', '(shared rule) ObserverResultT::Observe stores last-write-wins', 4)
     ck.doc('C06.R3', '(shared rule, see C06) buildMetrics reader fan-out: fast path only for a single reader; no early return before the stash', 5)
     with ck.canary('C17.R1'):
@@ -349,6 +455,8 @@ def run(ck, prog):
     rule_r4(ck, prog)
     rule_r1_identity(ck, prog)
     rule_r5(ck, prog)
+    rule_r6(ck, prog)
+    rule_r7(ck, prog)
     c08.rule_r7(ck, prog, setters=('sdk::metrics::ObserverResultT::Observe',))
     c06.build_metrics_rules(ck, prog, rule4=None)
     return {}
